@@ -6,7 +6,6 @@ import (
 	"encoding/hex"
 	"errors"
 	"fmt"
-	"os"
 	"sort"
 	"strings"
 
@@ -382,10 +381,11 @@ func storeStatePath() path {
 }
 
 // cache path for one item: Cache.SetItem, SaveToDisk, LoadFromDisk into a fresh cache, GetItem.
-func cacheItemPath[T any](dir func() string) path {
+func cacheItemPath[T any]() path {
 	return path{name: "cache", rt: func(v any) ([]byte, any, error, error) {
-		d := dir()
-		defer os.RemoveAll(d)
+		sc := getScratch()
+		defer putScratch(sc)
+		d := sc.out
 		c := cache.NewCache[T]()
 		c.SetItem(7, v.(*T))
 		if err := c.SaveToDisk(d); err != nil {
